@@ -37,11 +37,17 @@ def main():
     p.write_text(json.dumps(sorted(out), indent=0))
     print(len(out), 'functions ->', p)
     # constructs of the reference tree that the term graphs do not follow (pbv/opaque.py): a later version of a function is judged against these counts
-    from pbv.opaque import opaque_constructs, outer_functions
+    from pbv.opaque import all_counts, outer_functions
+    from pbv.terms import Graphs
+    graphs = Graphs(prog)
     ref = {}
     for m in prog.mods.values():
         for _a, _b, q, node in outer_functions(m.tree):
-            c = opaque_constructs(node)
+            try:
+                g = graphs.get(prog.func(f'{m.name}::{q}'))
+            except Exception:
+                g = None
+            c = all_counts(node, g)
             if c:
                 ref[f'{m.name}::{q}'] = dict(c)
     p2 = VERIF / 'pbv' / 'opaque_reference.json'
